@@ -4,8 +4,10 @@ import (
 	"bytes"
 	"context"
 	"encoding/json"
+	"fmt"
 	"io"
 	"log/slog"
+	"reflect"
 	"runtime"
 	"slices"
 	"strconv"
@@ -205,6 +207,21 @@ func appendJsonValue(buf *[]byte, v slog.Value, colorful bool) {
 		*buf = append(*buf, '"')
 	case slog.KindAny, slog.KindLogValuer:
 		va := v.Any()
+		// A method of the value may panic, typically Error or MarshalJSON called on a nil pointer
+		// that does not expect it. Like log/slog, report <nil> (or the panic) instead of letting
+		// the logging call panic with a half-written value.
+		start := len(*buf)
+		defer func() {
+			if r := recover(); r != nil {
+				*buf = append((*buf)[:start], '"')
+				if rv := reflect.ValueOf(va); rv.Kind() == reflect.Pointer && rv.IsNil() {
+					*buf = append(*buf, "<nil>"...)
+				} else {
+					appendJsonString(buf, fmt.Sprintf("!PANIC: %v", r))
+				}
+				*buf = append(*buf, '"')
+			}
+		}()
 		if _, ok := va.(json.Marshaler); ok {
 			appendJsonMarshal(buf, va)
 		} else if vv, ok := va.(error); ok {
